@@ -28,10 +28,20 @@
    (a delta cycle) repeats the time stamp, which C02's table theorem turns into the same time index.
    snapshot_vectors: the snapshot section (one value byte per signal, in signal order) of vector elements is the same kind of
    update script.
-   NOT proved: the same composition for the scalar value types (read_signals_ops /
+   The hierarchy side (Model/GhwHier.v: string table, type table, well-known types, hierarchy section, signal tracker - all of
+   ghw/hierarchy.rs; Model/GhwFile.v composes it with the signal sections into the load of a whole file) is tied to the code
+   on generated, corpus and corrupted files; pinned about it (Proofs/GhwHierProofs.v): array_labels - the elements of an
+   array signal are visited in declaration order and the k-th one is labelled with its declared index, left - k for a
+   descending and left + k for an ascending range (finding D20 and its repair); record_fields - the fields of a record in
+   declaration order under their names; string_table_decoded (Proofs/GhwStringProofs.v) - the strings of the prefix-compressed
+   string table are reconstructed whatever the shared lengths, one byte of length code or several; enum_bits_spec / enum_lits_codes - an enumeration of n literals is as many bits wide
+   as n - 1 needs and its k-th literal has the binary code k.
+   NOT proved: a description of the hierarchy of every declaration in terms of its type beyond these clauses; the same
+   composition for the scalar value types (read_signals_ops /
    read_signals_time_table give well-formedness and the time table for all of them), the hierarchy; those are decided by the correspondence run on signal sections and by the GHW
    file generator (MANIFEST level_note). *)
-From WV Require Import Model.Base Model.Bits Model.WaveMem Model.Ghw Spec.TimeSpec Proofs.TimeTableProofs Proofs.BitsProofs Proofs.StoreProofs Proofs.RawProofs Proofs.VecProofs Proofs.VecStepProofs Proofs.GhwProofs Proofs.GhwCycleProofs Model.Leb128.
+From WV Require Import Model.Base Model.Bits Model.WaveMem Model.Ghw Spec.TimeSpec Proofs.TimeTableProofs Proofs.BitsProofs Proofs.StoreProofs Proofs.RawProofs Proofs.VecProofs Proofs.VecStepProofs Proofs.GhwProofs Proofs.GhwCycleProofs Model.Leb128
+  Model.Hierarchy Model.FstHier Model.GhwAlias Model.GhwHier Proofs.GhwHierProofs Proofs.GhwStringProofs.
 From Coq Require Import Sorted List. Import ListNotations.
 Open Scope N_scope.
 
@@ -226,6 +236,58 @@ Check snapshot_vectors :
 Check (eq_refl : cyc_bytes = fun c => concat (map rec_bytes (c_recs c)) ++ 0 :: c_dt_bytes c).
 Check (eq_refl : dt_ok = fun c => forall rest, sleb_read (c_dt_bytes c ++ rest) = Some (c_dt c, rest)).
 
+(* the hierarchy reader *)
+Check array_labels :
+  forall h downto l r g inp fuel2,
+  let rg := IR downto l r in
+  let '(s, e) := ir_start_end rg in
+  (Z.to_nat (e - s) < fuel2)%nat -> (0 <= e - s)%Z ->
+  array_loop h fuel2 s e downto 0%Z g inp = feed h (map index_name (declared_ids rg)) g inp.
+Check (eq_refl : declared_ids = fun rg =>
+  match rg with
+  | IR true l r => map (fun k => (l - Z.of_nat k)%Z) (seq 0 (Z.to_nat (l - r + 1)))
+  | IR false l r => map (fun k => (l + Z.of_nat k)%Z) (seq 0 (Z.to_nat (r - l + 1)))
+  end).
+Check declared_ids_example.
+Check record_fields :
+  forall h strings fs names g inp,
+  Forall2 (fun f n => nthN strings (fst f) = Some n) fs names ->
+  record_loop h strings fs g inp = feed_fields h (combine names (map snd fs)) g inp.
+Check enum_bits_spec :
+  forall n, (1 <= n)%nat ->
+  exists b, enum_bits n = Ok b /\ N.of_nat n <= 2 ^ b /\ (b = 0 \/ 2 ^ (b - 1) < N.of_nat n).
+Check enum_lits_codes :
+  forall strings bits lits ii ls,
+  enum_lits strings bits ii lits = Ok ls ->
+  map fst ls = map (fun k => bin_str bits (ii + N.of_nat k)) (seq 0 (length lits)) /\
+  Forall2 (fun l s => nthN strings l = Some s) lits (map snd ls).
+
+
+(* the string table: prefix-compressed strings are reconstructed, whatever the shared lengths *)
+Check string_table_decoded :
+  forall cf recs buf table rest fuel,
+  (1 <= cf)%nat -> Forall (fun r => plain (fst r) /\ snd r < 32 ^ N.of_nat cf) recs ->
+  (length recs < fuel)%nat ->
+  str_loop fuel (N.of_nat (length recs)) (concat (map (rec_text cf) recs) ++ rest) buf table
+  = Ok (table ++ strings_of buf recs, rest).
+Check (eq_refl : strings_of = fix strings_of buf recs :=
+  match recs with
+  | [] => []
+  | (suf, plen) :: r => let s := buf ++ suf in s :: strings_of (firstn (N.to_nat plen) s) r
+  end).
+Check (eq_refl : rec_text = fun fuel r => fst r ++ len_code fuel (snd r)).
+Check (eq_refl : len_code = fix len_code fuel n :=
+  match fuel with
+  | O => []
+  | S f => if n <? 32 then [n] else (128 + n mod 32) :: len_code f (n / 32)
+  end).
+Check string_table_example.
+
+Print Assumptions string_table_decoded.
+Print Assumptions array_labels.
+Print Assumptions record_fields.
+Print Assumptions enum_bits_spec.
+Print Assumptions enum_lits_codes.
 Print Assumptions cycle_signals_vectors.
 Print Assumptions cycle_vectors_step.
 Print Assumptions cycle_loop_vectors.
